@@ -5,3 +5,18 @@ static VERIF_DUMMY_LOC: [u64; 4] = [0; 4];
 pub fn stub_caller<'a>() -> &'static core::panic::Location<'a> {
     unsafe { &*(VERIF_DUMMY_LOC.as_ptr() as *const core::panic::Location<'a>) }
 }
+
+/// Copy a constant text into a (longer) local array element by element, in place.
+/// A `copy_from_slice`, a by-value array copy or an array returned from a function is a
+/// memcpy for the symbolic executor, after which not a single byte of the text is recognised
+/// as a constant any more and the whole parse forks on every character (measured: > 20 min
+/// and > 14 GB instead of 2 min).
+macro_rules! copy_text {
+    ($dst:ident, $src:expr) => {{
+        let mut copy_text_i = 0;
+        while copy_text_i < $src.len() {
+            $dst[copy_text_i] = $src[copy_text_i];
+            copy_text_i += 1;
+        }
+    }};
+}
